@@ -64,6 +64,44 @@ func c19Cases() []c19Case {
 		{"delete", func(db *gorm.DB, v []int) *gorm.DB { return db.Where("age = ?", v[0]).Delete(&Item{}) }},
 		{"delete-soft", func(db *gorm.DB, v []int) *gorm.DB { return db.Where("rank = ?", v[0]).Delete(&Doc{}) }},
 		{"delete-unscoped", func(db *gorm.DB, v []int) *gorm.DB { return db.Unscoped().Delete(&Doc{ID: 3}, "rank = ?", v[0]) }},
+		{"row", func(db *gorm.DB, v []int) *gorm.DB {
+			tx := db.Model(&Item{}).Where("age = ?", v[0])
+			func() {
+				// a zero *sql.Row (dry run returns nil) must not be scanned
+				defer func() { recover() }()
+				if r := tx.Select("name").Row(); r != nil {
+					var name string
+					r.Scan(&name)
+				}
+			}()
+			return tx
+		}},
+		{"raw-row", func(db *gorm.DB, v []int) *gorm.DB {
+			tx := db.Raw("SELECT name FROM items WHERE age = ?", v[0])
+			func() {
+				defer func() { recover() }()
+				if r := tx.Row(); r != nil {
+					var name string
+					r.Scan(&name)
+				}
+			}()
+			return tx
+		}},
+		{"updates-returning", func(db *gorm.DB, v []int) *gorm.DB {
+			var out []Item
+			return db.Model(&out).Clauses(clause.Returning{}).Where("score = ?", v[1]).Updates(map[string]interface{}{"age": v[0]})
+		}},
+		{"update-returning-columns", func(db *gorm.DB, v []int) *gorm.DB {
+			var out []Item
+			return db.Model(&out).Clauses(clause.Returning{Columns: []clause.Column{{Name: "name"}}}).Where("score = ?", v[1]).Update("age", v[0])
+		}},
+		{"delete-returning", func(db *gorm.DB, v []int) *gorm.DB {
+			var out []Item
+			return db.Clauses(clause.Returning{}).Where("age = ?", v[0]).Delete(&out)
+		}},
+		{"create-returning", func(db *gorm.DB, v []int) *gorm.DB {
+			return db.Clauses(clause.Returning{}).Create(&Item{Name: "a", Age: v[0]})
+		}},
 		{"rows", func(db *gorm.DB, v []int) *gorm.DB {
 			tx := db.Model(&Item{}).Where("age = ?", v[0])
 			rows, err := tx.Rows()
@@ -75,7 +113,7 @@ func c19Cases() []c19Case {
 	}
 }
 
-func N_C19_Twice(tier int) int { return len(c19Cases()) }
+func N_C19_Twice(tier int) int { return 2 * len(c19Cases()) }
 
 func normVar(v interface{}) driver.Value {
 	nv, err := driver.DefaultParameterConverter.ConvertValue(v)
@@ -104,15 +142,18 @@ func firstStatement(s *Store) (Event, bool) {
 }
 
 func H_C19_Twice(shape int) {
-	c := c19Cases()[shape]
+	cases := c19Cases()
+	c := cases[shape%len(cases)]
+	dial := stubDialector{returning: shape >= len(cases)} // dialects with and without RETURNING support
+	verifrt.Tag(c.name)
 	v := []int{verifrt.Int("v0"), verifrt.Int("v1")}
 	mode := verifrt.Concretize(verifrt.Intn("dry_mode", 0, 1), 0, 1) // 0 = config, 1 = session
 	sDry, sReal := NewStore(), NewStore()
-	dry := openReal(stubDialector{}, sDry, &gorm.Config{DryRun: mode == 0})
+	dry := openReal(dial, sDry, &gorm.Config{DryRun: mode == 0})
 	if mode == 1 {
 		dry = dry.Session(&gorm.Session{DryRun: true})
 	}
-	real := openReal(stubDialector{}, sReal, nil)
+	real := openReal(dial, sReal, nil)
 	hooks = &hookCtl{}
 	dres := c.run(dry, v)
 	hooks = &hookCtl{}
@@ -138,14 +179,17 @@ func H_C19_Twice(shape int) {
 	}
 }
 
-func N_C19_ToSQL(tier int) int { return len(c19Cases()) }
+func N_C19_ToSQL(tier int) int { return 2 * len(c19Cases()) }
 
 func H_C19_ToSQL(shape int) {
-	c := c19Cases()[shape]
+	cases := c19Cases()
+	c := cases[shape%len(cases)]
+	dial := stubDialector{returning: shape >= len(cases)}
+	verifrt.Tag(c.name)
 	v := []int{verifrt.Int("v0"), verifrt.Int("v1")}
 	sDry, sReal := NewStore(), NewStore()
-	dry := openReal(stubDialector{}, sDry, nil)
-	real := openReal(stubDialector{}, sReal, nil)
+	dry := openReal(dial, sDry, nil)
+	real := openReal(dial, sReal, nil)
 	hooks = &hookCtl{}
 	sql := dry.ToSQL(func(tx *gorm.DB) *gorm.DB { return c.run(tx, v) })
 	hooks = &hookCtl{}
